@@ -25,6 +25,17 @@ theorem setCode_sim (c : List Op) : ∀ a b : Mach, eraseLog a = eraseLog b →
   subst_vars
   simp
 
+theorem patchCode_sim (ip : Nat) (op : Op) : ∀ a b : Mach, eraseLog a = eraseLog b →
+    eraseLog (a.patchCode ip op) = eraseLog (b.patchCode ip op) := by
+  intro a b h
+  obtain ⟨_, hctx, _, _, _, _, hcode, _⟩ := ds_eq a b h
+  have hm : a.ctx.mode = b.ctx.mode := by rw [hctx]
+  unfold patchCode
+  rw [hm, hcode]
+  split
+  · exact h
+  · exact setCode_sim _ a b h
+
 theorem step_sim (np : String → Option Prog) (a b : Mach) (h : eraseLog a = eraseLog b) :
     SimR (step np a) (step np b) := by
   obtain ⟨_, hctx, _, _, _, _, hcode, hdict, _⟩ := ds_eq a b h
@@ -56,11 +67,11 @@ theorem step_sim (np : String → Option Prog) (a b : Mach) (h : eraseLog a = er
       · exact ⟨rfl, h2⟩
       · exact ⟨rfl, h2⟩
       · rename_i op hres
-        have h3 := setCode_sim (mb.code.set b.ctx.ip op) ma mb h2
+        have h3 := patchCode_sim b.ctx.ip op ma mb h2
         have hs := meterIncrease_sim _ _ h3
         revert hs
-        generalize Mach.meterIncrease { ma with code := mb.code.set b.ctx.ip op } = ra
-        generalize Mach.meterIncrease { mb with code := mb.code.set b.ctx.ip op } = rb
+        generalize Mach.meterIncrease (ma.patchCode b.ctx.ip op) = ra
+        generalize Mach.meterIncrease (mb.patchCode b.ctx.ip op) = rb
         obtain ⟨oa, ma2⟩ := ra
         obtain ⟨ob, mb2⟩ := rb
         rintro ⟨g1, g2⟩
@@ -136,6 +147,17 @@ theorem setCode_sim (c : List Op) : ∀ a b : Mach, normAll a = normAll b →
   subst_vars
   simp
 
+theorem patchCode_sim (ip : Nat) (op : Op) : ∀ a b : Mach, normAll a = normAll b →
+    normAll (a.patchCode ip op) = normAll (b.patchCode ip op) := by
+  intro a b h
+  obtain ⟨_, hctx, _, _, _, _, hcode, _⟩ := ds_eq a b h
+  have hm : a.ctx.mode = b.ctx.mode := by rw [hctx]
+  unfold patchCode
+  rw [hm, hcode]
+  split
+  · exact h
+  · exact setCode_sim _ a b h
+
 theorem meterIncrease_limit (a : Mach) : a.meterIncrease.2.insnLimit = a.insnLimit := by
   unfold meterIncrease; split <;> (try split) <;> rfl
 
@@ -172,11 +194,12 @@ theorem step_sim (np : String → Option Prog) (a b : Mach) (h : normAll a = nor
       · exact ⟨rfl, h2⟩
       · exact ⟨rfl, h2⟩
       · rename_i op hres
-        have h3 := setCode_sim (mb.code.set b.ctx.ip op) ma mb h2
-        have hs := meterIncrease_sim _ _ h3 (by show ma.insnLimit = none; rw [hl1, hl])
+        have h3 := patchCode_sim b.ctx.ip op ma mb h2
+        have hpl : (ma.patchCode b.ctx.ip op).insnLimit = ma.insnLimit := by unfold patchCode; split <;> rfl
+        have hs := meterIncrease_sim _ _ h3 (by rw [hpl]; show ma.insnLimit = none; rw [hl1, hl])
         revert hs
-        generalize Mach.meterIncrease { ma with code := mb.code.set b.ctx.ip op } = ra
-        generalize Mach.meterIncrease { mb with code := mb.code.set b.ctx.ip op } = rb
+        generalize Mach.meterIncrease (ma.patchCode b.ctx.ip op) = ra
+        generalize Mach.meterIncrease (mb.patchCode b.ctx.ip op) = rb
         obtain ⟨oa, ma2⟩ := ra
         obtain ⟨ob, mb2⟩ := rb
         rintro ⟨g1, g2⟩
